@@ -187,6 +187,13 @@ func oracle(c cfg, o *vrt.Outcome) {
 				if strict && g.until >= 0 && t > g.until {
 					continue // a prompt runner has processed the Restart by now
 				}
+				// a runner that was executing the function when Restart was called processes it when
+				// the function returns, at the latest after the select fairness bound (3) of further
+				// buffered ticks: on the default schedule the old generation is dead 5 function
+				// durations after the Restart
+				if o.Cost == 0 && g.until >= 0 && t > g.until+5*int64(c.fnDur) {
+					continue
+				}
 				if fits(g, freq, t, strict) {
 					gens = gens[gi:]
 					ok = true
@@ -265,6 +272,8 @@ func scenariosFor(tier string) []vrt.Scenario {
 		add(b, s1, 0, restart, sl(101), cancel)
 		add(b, s1, ms(30), sl(110), cancel, stop) // interrupted run: the parent context is cancelled, then Stop, with an invocation in flight
 		add(b, s2, ms(30), sl(100), cancel, stop)
+		add(b, s2, ms(30), sl(310), restart, sl(300), stop) // Restart while an invocation of the later schedule is in flight
+		add(b, s2, ms(120), sl(400), restart, sl(900), stop)
 		return out
 	}
 	for _, fn := range []time.Duration{0, ms(30), ms(120)} {
@@ -282,6 +291,11 @@ func scenariosFor(tier string) []vrt.Scenario {
 	}
 	add(2, s3, 0, sl(1300), stop)
 	add(2, s3, ms(30), sl(1001), restart, sl(90), stop)
+	for _, fn := range []time.Duration{ms(30), ms(120)} {
+		for _, d := range []int{300, 310, 329, 330, 400} {
+			add(2, s2, fn, sl(d), restart, sl(900), stop) // Restart around an in-flight invocation of the later schedule
+		}
+	}
 	return out
 }
 
